@@ -261,6 +261,8 @@ class Scenario:
                     cmds += ["hdef 0 s - - - 1", "hadd 0"]
                 if o[2] is not None:
                     cmds += ["hdef 1 t %d 1" % o[2], "hadd 1"]
+            elif k == "userid":
+                cmds += ["hdef 2 i x1 1", "hadd 2"]
             elif k == "env":
                 if not o[1]:
                     cmds.append("tlsnew fail")
@@ -492,6 +494,8 @@ def canon_trace(line):
             toks.append("H:user")
         elif re.match(r"^H1@", p):
             toks.append("H:timed")
+        elif re.match(r"^H2@", p):
+            toks.append("H:userid")
         elif p == "END":
             info["end"] = " ".join(parts[i:])
             break
@@ -525,6 +529,8 @@ def run_scenarios(chk, pid, scenarios, stream="neg"):
     for i, sc in enumerate(scenarios):
         toks, info = canon_trace(impl[i])
         mt = model[i].split(" ") if model is not None else None
+        if getattr(sc, "impl_only", False):
+            mt = None
         if mt is not None:
             mt = [t for t in mt if t]
             if mt and mt[-1].startswith("CHK="):
@@ -947,7 +953,7 @@ class Observer:
                 # (a disconnect raised by a timed handler precedes this iteration's read: accept both views)
                 if att["kind"] != "raw" and rep != att["serr"] and rep != serr_before:
                     self.viol["C13"].append("stream error reported %s but the server sent %s" % (rep, att["serr"]))
-            elif t in ("H:user", "H:timed"):
+            elif t in ("H:user", "H:timed", "H:userid"):
                 if not up or not att["alive"]:
                     self.viol["C03"].append("user handler ran before the connection was reported up")
             elif t in ("W:user", "T:user"):
@@ -1262,6 +1268,94 @@ def stage_shape_scenarios(rng, thorough=False):
                 ops += [("connect", kind, ["accept"]), ("run", None)] + runs(["h1"]) + [("is",), ("run", "close"), ("run", None), ("release",)]
                 out.append(Scenario(ops, "shape:%s:%d:%s" % (name, k, shape if isinstance(shape, str) else getattr(shape, "kind", None) or shape.tok())))
     return out
+
+
+def _session(tls, mech, post, tail=True):
+    """Server steps of a conforming client session: pre-auth features (tls?, [mech, PLAIN]), the exchange of `mech`,
+    post-auth features `post` (dict for features()), bind / session / enabled answers."""
+    mechs = [mech] if mech == "PLAIN" else [mech, "PLAIN"]
+    st = [["h1"], [features(tls, mechs)]]
+    if tls:
+        st += [[PROCEED], ["h1"], [features(False, mechs)]]
+    if mech.startswith("SCRAM"):
+        st.append([challenge("scram_ok")])
+    elif mech == "DIGEST-MD5":
+        st += [[challenge("digest_ok")], [challenge("digest_ok")]]
+    st += [[SUCCESS], ["h1"], [features(**post)]]
+    if tail:
+        if post.get("bind"):
+            st.append([iq("bind", "result", "bindjid")])
+        if post.get("session") == "req":
+            st.append([iq("session", "result")])
+        if post.get("sm"):
+            st.append([sm_elem("enabled", True, True)])
+    return st
+
+
+POSTS = [dict(bind=True), dict(bind=True, session="req"), dict(bind=True, session="opt"), dict(bind=True, sm=True),
+         dict(bind=True, session="req", sm=True), dict(bind=True, zlib=True), dict(sm=True), dict()]
+
+
+def reconnect_scenarios(rng, thorough=False):
+    """C03: two connections of one object whose offers differ (every ordered pair of post-authentication feature sets,
+    with the pre-authentication offers swapped as well): what the second connection requests must answer the second
+    connection's offers."""
+    S = []
+    pres = [(True, "SCRAM-SHA-1"), (False, "PLAIN"), (False, "DIGEST-MD5")]
+    for i, a in enumerate(POSTS):
+        for j, b in enumerate(POSTS):
+            if i == j:
+                continue
+            for fl in (0, 64):
+                if fl == 64 and not (a.get("zlib") or b.get("zlib")):
+                    continue
+                pa, pb = pres[(i + j) % 3], pres[(i + j + 1) % 3]
+                end1 = "close" if (i + j) % 2 else "reset"
+                ops = base_ops(flags=fl) + [("connect", "client", ["accept"]), ("run", None)] + runs(*_session(pa[0], pa[1], a)) + \
+                    [("is",), ("send",), ("run", None), ("run", end1), ("run", None), ("is",)] + \
+                    [("connect", "client", ["accept"]), ("run", None)] + runs(*_session(pb[0], pb[1], b)) + \
+                    [("is",), ("send",), ("run", None), ("run", "close"), ("run", None), ("is",), ("release",)]
+                S.append(Scenario(ops, "reconnect:%d:%d:%d" % (i, j, fl)))
+    if not thorough:
+        S = [x for k, x in enumerate(S) if k % 2 == rng.randrange(2)] if len(S) > 80 else S
+    return S
+
+
+def resume_scenarios(rng, thorough=False):
+    """C03: a second connection of an object that holds a resumable session; every post-authentication offer x every
+    answer to what the client then asks (<resumed/>, <failed/> with every cause and h, <enabled/>, silence)."""
+    S = []
+    first = ([("connect", "client", ["accept"]), ("run", None)] + runs(*happy_client(tls=False)) +
+             [("send",), ("run", None), ("run", "reset"), ("run", None)])
+    answers = [sm_elem("resumed", previd=True, h=1), sm_elem("resumed", previd=False, h=0), sm_elem("resumed", previd=None, h=None),
+               sm_elem("enabled", True, True), None]
+    for c in CAUSES:
+        for h in (None, 0, 1, "bad"):
+            answers.append(sm_elem("failed", cause=c, h=h))
+    for post in (dict(bind=True, sm=True), dict(sm=True), dict(bind=True), dict(bind=True, session="req", sm=True)):
+        for ans in answers:
+            tail = [[ans]] if ans is not None else []
+            tail += [[iq("bind", "result", "bindjid")], [iq("session", "result")], [sm_elem("enabled", True, True)]]
+            ops = base_ops() + first + [("connect", "client", ["accept"]), ("run", None)] + runs(*(_session(False, "PLAIN", post, tail=False) + tail)) + \
+                [("is",), ("send",), ("run", None), ("run", "close"), ("run", None), ("is",), ("release",)]
+            S.append(Scenario(ops, "resume:%s:%s" % ("+".join(sorted(post)), "silence" if ans is None else ans.xml[:60])))
+    return S
+
+
+def userid_scenarios(rng, thorough=False):
+    """C03, implementation only (the model has no user id handlers): a user id handler, a user stanza handler and a user
+    timed handler are registered before connecting; the server sends an <iq/> carrying that id at every stage."""
+    S = []
+    probe = iq("other", "result")
+    for name, fl, kind, setup, steps in stage_sessions():
+        for k in range(len(steps) + 1):
+            ops = base_ops(flags=fl, user=(1, 1)) + [("userid",)] + list(setup) + [("connect", kind, ["accept"]), ("run", None)] + runs(*steps[:k])
+            ops += [("run", ("items", [probe])), ("run", None), ("clock", 5), ("run", None)] + runs(*steps[k:]) + [("run", ("items", [probe])), ("run", None)]
+            ops += [("is",), ("run", "close"), ("run", None), ("release",)]
+            sc = Scenario(ops, "userid:%s:%d" % (name, k))
+            sc.impl_only = True
+            S.append(sc)
+    return S
 
 
 def deadline_scenarios(rng, thorough=False):
